@@ -85,10 +85,10 @@ func tsBytes(form int, sec, nsec int64) []byte {
 func (comp) Gen(r *kit.Rng, maxLen int, tier string) kit.Case {
 	n := 8 + r.Intn(maxLen)
 	var ops []string
-	paths := []string{"hdr", "json"}
+	paths := []string{"hdr", "json", "jsoni"}
 	for i := 0; i < n; i++ {
 		sec, nsec := clampSec(randSec(r)), randNsec(r)
-		path := paths[r.Intn(2)]
+		path := paths[r.Intn(3)]
 		switch r.Pick(40, 15, 15, 15, 5) {
 		case 0: // integer epoch with 10..19 digits (10/13/16/19 most often)
 			lens := []int{10, 13, 16, 19, 10 + r.Intn(10)}
@@ -139,6 +139,22 @@ func (r *runner) parse(path, s string) string {
 	case "json":
 		body := []byte(`[{"time":` + strconv.Quote(s) + `,"samplerate":2,"data":{"a":1}}]`)
 		ts, err := route.VerifEvtimeBatchJSON(r.cfg, body)
+		if err != nil || len(ts) != 1 {
+			return "error"
+		}
+		return inst(ts[0])
+	case "jsoni":
+		// a second request of the same shape, every digit of its time changed, is decoded
+		// (taking the pooled parser) before the first request's times are read
+		other := []byte(s)
+		for i, c := range other {
+			if c >= '0' && c <= '9' {
+				other[i] = '0' + (c-'0'+5)%10
+			}
+		}
+		bodyA := []byte(`[{"time":` + strconv.Quote(s) + `,"samplerate":2,"data":{"a":1}}]`)
+		bodyB := []byte(`[{"time":` + strconv.Quote(string(other)) + `,"samplerate":2,"data":{"a":1}}]`)
+		ts, err := route.VerifEvtimeBatchJSONInterleaved(r.cfg, bodyA, bodyB)
 		if err != nil || len(ts) != 1 {
 			return "error"
 		}
